@@ -152,7 +152,7 @@ def unroll : Nat → Expr → Expr
   | n + 2, e => .seq e (unroll (n + 1) e)
 
 def lookNot : Look → Look
-  | .none => .neg | .pos => .neg | .neg => .neg
+  | .none => .neg | .pos => .neg | .neg => .pos
 def lookAnd : Look → Look
   | .none => .pos | .pos => .pos | .neg => .neg
 
